@@ -168,7 +168,21 @@ def _probe_class(R, cls, kind, what, w):
             if got != allv[name]:
                 R.add([K.V("ctor:boundary-value-not-stored", f"{what}(**{allv}) stored {got!r} for {name}", **w)])
                 break
-    for bad in ("not_a_name", (lay[0] + "_") if lay else "zz_", (lay[0].swapcase() if lay and lay[0].swapcase() not in lay else "Q_q")):
+    bads = ["not_a_name", (lay[0] + "_") if lay else "zz_", (lay[0].swapcase() if lay and lay[0].swapcase() not in lay else "Q_q")]
+    # names structurally related to declared ones: prefixes, suffixes, infixes, single characters,
+    # concatenations of two declared names, a declared name doubled
+    import keyword
+
+    rel = set()
+    for nm in lay:
+        for cut in (nm[:-1], nm[1:], nm[1:-1], nm[:1], nm[-1:], nm[: len(nm) // 2], nm + nm, "_" + nm):
+            rel.add(cut)
+    for a_, b_ in zip(lay, lay[1:]):
+        rel.update({a_ + b_, a_ + "_" + b_, a_[-1:] + b_[:1]})
+    rel = sorted(r for r in rel if r and r.isidentifier() and not keyword.iskeyword(r) and r not in lay and r != "_data")
+    bads += rel[:12]
+    R.stats.inc("ctor_unknown_names_related_to_declared", len(rel[:12]))
+    for bad in bads:
         try:
             cls(**{bad: 1.0})
             R.add([K.V("ctor:unknown-name-accepted", f"{what}({bad}=1.0) accepted an unknown name", **w)])
